@@ -138,9 +138,9 @@ def _task(ob_name, job_idx, prefix, twin_offset):
         out["nq"] += ctx.nq
         out["tq"] += ctx.tq
         for i in range(len(pfx), len(ctx.trace)):
-            d, alt = ctx.trace[i]
+            d, alt, fp = ctx.trace[i]
             if alt:
-                stack.append([t[0] for t in ctx.trace[:i]] + [not d])
+                stack.append([(t[0], t[2]) for t in ctx.trace[:i]] + [(not d, fp)])
         if status == "infeasible":
             out["infeasible"] += 1
             continue
